@@ -197,6 +197,19 @@ def run(chk: Check) -> None:
         r2.ok("mypy.operators.ops_with_inplace_method", mo.relpath)
     else:
         r2.violation("mypy.operators.ops_with_inplace_method", f"{mo.relpath}:{inplace.lineno}", f"differs from the augmented-assignment operators: {sorted(set(ops) ^ spec_inplace)}")
+    # the methods for which Python skips the reflected method when both operands have the same type:
+    # every binary arithmetic / bitwise dunder that has an __r*__ counterpart (the data model: "if the operands
+    # are of the same type, it is assumed that if the non-reflected method fails the operation is not supported")
+    shortcut = table(mo, "op_methods_that_shortcut")
+    try:
+        sc = set(ix.const_eval(mo, shortcut))
+    except Exception as exc:  # a computed table the evaluator cannot fold
+        raise AnalysisError(f"mypy.operators.op_methods_that_shortcut cannot be evaluated: {exc}")
+    want_sc = {k for k in rev if k not in refl_cmp}
+    if sc == want_sc:
+        r2.ok("mypy.operators.op_methods_that_shortcut", mo.relpath, f"{len(sc)} methods: every __X__ with an __rX__")
+    else:
+        r2.violation("mypy.operators.op_methods_that_shortcut", f"{mo.relpath}:{shortcut.lineno}", f"differs from the binary operator methods that have a reflected form: missing {sorted(want_sc - sc)}, extra {sorted(sc - want_sc)}; for a missing method mypy also tries __r*__ on operands of the same type (`divmod(A(), A())` with only __rdivmod__ is accepted, CPython raises TypeError)")
     # mypyc ComparisonOp tables (class-level)
     cop = ix.cls("mypyc.ir.ops.ComparisonOp")
     for nm, spec in (("signed_ops", IR_CMP_SIGNED), ("unsigned_ops", IR_CMP_UNSIGNED)):
